@@ -299,6 +299,11 @@ def st_invert(draw, partial=False):
         # %s alone: the library walks day by day from 1970
         kw = draw(st_point(cm, dyadic_ok=False, years=st.one_of(
             st.integers(1200, 2800), st.sampled_from([1969, 1970, 0, 1, 9999]))))
+        if draw(st.integers(0, 5)) == 0:
+            # on and next to the epoch itself: the Unix time texts 0, 1, -1...
+            n = draw(st.sampled_from([0, 0, 1, -1, 9, -10, 59, -60]))
+            kw = G.respell(draw, cm, R.UNIX_EPOCH_DN[cm] * 86400 + n,
+                           allow24=False)
         fmt = draw(st.sampled_from(["%s", "%s", "@%s", "%s s", "t=%s;"]))
         if draw(st.booleans()):
             # %s next to other directives of the same point: the format still
